@@ -95,6 +95,9 @@ func scenariosFor(prop string) []scn {
 		// the DLQ is still opening (unresponsive) while a record is already being rejected, then the force stop arrives
 		both(flowParams{Sources: 1, Records: 1, Batch: 1, Dests: 1, AckMenu: okNack, GateDLQOpen: true, Stop: "force"}, 3, 4)
 		both(flowParams{Sources: 1, Records: 2, Batch: 1, Dests: 2, AckMenu: okNack, GateDLQOpen: true, Stop: "force"}, 2, 3)
+		// one ack response rejecting a record and confirming the next one, the DLQ write of the first still in flight
+		both(flowParams{Sources: 1, Records: 2, Batch: 1, Dests: 1, AckMenu: []string{"ok", "defernack"}, Stop: "force", Blocked: []string{"dlq"}}, 2, 3)
+		both(flowParams{Sources: 1, Records: 2, Batch: 2, Dests: 1, AckMenu: []string{"ok", "n:10"}, Stop: "force", Blocked: []string{"dlq"}}, 2, 3)
 	case "C09":
 		shapes := []string{"ok", "wrongpos", "extra", "none", "reorder", "dup", "err", "nack", "empty", "chunkextra"}
 		both(flowParams{Sources: 1, Records: 2, Batch: 2, Dests: 1, AckMenu: shapes, Stop: "force"}, 2, 3)
@@ -137,6 +140,9 @@ func scenariosFor(prop string) []scn {
 		both(flowParams{Sources: 1, Records: 2, Batch: 1, Dests: 1, AckMenu: []string{"ok", "err"}, ReadMenu: []string{"ok", "err"}, Ctl: []string{"stop", "wait", "start", "stopwait"}, Retries: 1}, 2, 3)
 		both(flowParams{Sources: 1, Records: 2, Batch: 1, Dests: 1, AckMenu: []string{"ok", "err"}, Ctl: []string{"stopwait", "start", "stopwait"}, Retries: 2}, 2, 3)
 		both(flowParams{Sources: 1, Records: 1, Batch: 1, Dests: 2, AckMenu: onlyOK, GateDestOpen: true, Ctl: []string{"stop", "start", "stopwait"}, Retries: 1}, 2, 3)
+		// a slow status store: the write of "running" is still in flight while the run already fails and ends
+		both(flowParams{Sources: 1, Records: 1, Batch: 1, Dests: 1, AckMenu: onlyOK, ReadMenu: []string{"ok", "err", "fatal"}, LatePut: true, Ctl: []string{"wait"}, Retries: -1}, 2, 3)
+		both(flowParams{Sources: 1, Records: 1, Batch: 1, Dests: 1, AckMenu: []string{"ok", "err"}, LatePut: true, Ctl: []string{"wait", "start"}, Retries: 1}, 2, 3)
 	case "C13":
 		v1 := func(p flowParams, q, t int) { p.Engine = "v1"; out = append(out, scn{p, q, t}) }
 		pp := []procParam{{ID: "pp"}}
@@ -146,6 +152,9 @@ func scenariosFor(prop string) []scn {
 		v1(flowParams{Sources: 1, Records: 2, Batch: 1, Dests: 1, AckMenu: onlyOK, Procs: pp, Reconf: []string{"A", "B", "cancelA"}, ProcOpenMenu: []string{"ok"}}, 3, 4)
 		v1(flowParams{Sources: 1, Records: 2, Batch: 1, Dests: 1, AckMenu: onlyOK, Procs: pp, Reconf: []string{"A", "cancelA"}, ProcOpenMenu: []string{"ok", "err"}}, 2, 4)
 		v1(flowParams{Sources: 1, Records: 3, Batch: 1, Dests: 1, AckMenu: okNack, Procs: []procParam{{ID: "pp", Gate: true}}, Reconf: []string{"A"}, ProcOpenMenu: []string{"ok"}}, 2, 3)
+		// the run is force-stopped (or fails) while the new processor is still inside Open, which then succeeds or fails
+		v1(flowParams{Sources: 1, Records: 2, Batch: 1, Dests: 1, AckMenu: onlyOK, Procs: pp, Reconf: []string{"A"}, ProcOpenMenu: []string{"ok", "err"}, Stop: "force"}, 2, 3)
+		v1(flowParams{Sources: 1, Records: 2, Batch: 1, Dests: 1, AckMenu: []string{"ok", "err"}, Procs: pp, Reconf: []string{"A"}, ProcOpenMenu: []string{"ok", "err"}}, 2, 3)
 	case "C16":
 		pp := []procParam{{ID: "pp"}}
 		two := []procParam{{ID: "pp"}, {ID: "pq"}}
